@@ -1,5 +1,5 @@
 """C12 - Flow control: in-flight window, FIFO release, queue bound.  Model M2 (coq/theories/Session), shared machinery in harness/session.py."""
-from harness import session, session2
+from harness import nested, session, session2
 
 RULE = ("corpus of repaired-defect witnesses first; exhaustive operation sequences of length 3 (quick) / 4 (thorough) over "
         "14 operations (publish q1/q2, reconnect ok/fail, loss, CONNACK, PUBACK/PUBREC/PUBCOMP for ids 1..2, inbound PUBLISH q2, "
@@ -63,9 +63,13 @@ def run(ctx, out):
     session.standard_run(ctx, out, KEYS, "C12", conforming=True)
     session2.standard_run(ctx, out, KEYS2, "C12-s2", conforming=True)
     nested_reconnect_oracle(out)
+    nested.oracle(out, "C12-nested-publish", thorough=ctx.tier == "thorough")
 
 
 def replay(payload):
+    if payload.get("case", {}).get("nested_publish"):
+        problems = nested.replay(payload["case"])
+        return (not problems), {"problems": problems}
     if str(payload.get("signature", "")).endswith("-s2") and hasattr(session2, "replay_case"):
         return session2.replay_case(payload, KEYS2)
     return session.replay_case(payload, KEYS)
